@@ -4,6 +4,7 @@ import (
 	"fmt"
 	"go/token"
 	"go/types"
+	"sort"
 	"strings"
 
 	"golang.org/x/tools/go/ssa"
@@ -103,7 +104,13 @@ func c18FlagStores(c *Ctx, prog *load.Program) {
 				_, isConst := st.Val.(*ssa.Const)
 				switch {
 				case isConst && hasTrue:
-					c.R.Decide(constructors[fn.String()], "C18-1a", key, pos, "stores true inside a validated constructor", "the validity flag is set to true outside the validated constructors (in "+fn.String()+")")
+					if constructors[fn.String()] {
+						c.R.OK("C18-1a", key, pos, "stores true inside a validated constructor")
+					} else if ok, why := onlyCalledFrom(prog, fn, constructors, 0); ok {
+						c.R.OK("C18-1a", key, pos, "stores true inside an unexported helper that only the validated constructors call ("+why+")")
+					} else {
+						c.R.Fail("C18-1a", key, pos, "the validity flag is set to true outside the validated constructors (in "+fn.String()+"; "+why+")")
+					}
 				case onlyFlags:
 					c.R.OK("C18-1a", key, pos, "stores a value computed only from operands' validity flags")
 				default:
@@ -112,8 +119,58 @@ func c18FlagStores(c *Ctx, prog *load.Program) {
 			}
 		}
 	}
-	c.R.Floor("C18-1a", 15)
+	c.R.Floor("C18-1a", 8)
 	_ = sites
+}
+
+// onlyCalledFrom: fn is unexported, never used as a value, and each of its call sites lies in one of the allowed
+// functions or in another helper with the same property.
+func onlyCalledFrom(prog *load.Program, fn *ssa.Function, allowed map[string]bool, depth int) (bool, string) {
+	if depth > 3 {
+		return false, "helper chain too deep"
+	}
+	if token.IsExported(fn.Name()) {
+		return false, "the function is exported"
+	}
+	var callers []string
+	for _, g := range ModuleFuncs(prog) {
+		for _, b := range g.Blocks {
+			for _, in := range b.Instrs {
+				if call, isCall := in.(ssa.CallInstruction); isCall && call.Common().StaticCallee() == fn {
+					root := g
+					for root.Parent() != nil {
+						root = root.Parent()
+					}
+					if !allowed[root.String()] {
+						if ok, _ := onlyCalledFrom(prog, root, allowed, depth+1); !ok {
+							return false, "called from " + root.String()
+						}
+					}
+					callers = append(callers, root.Name())
+					// the call itself passes fn as the callee only
+					for _, a := range call.Common().Args {
+						if a == ssa.Value(fn) {
+							return false, "used as a value in " + g.String()
+						}
+					}
+					continue
+				}
+				for _, op := range in.Operands(nil) {
+					if op != nil && *op == ssa.Value(fn) {
+						if call, isCall := in.(ssa.CallInstruction); isCall && call.Common().Value == ssa.Value(fn) {
+							continue
+						}
+						return false, "used as a value in " + g.String()
+					}
+				}
+			}
+		}
+	}
+	if len(callers) == 0 {
+		return false, "no call site"
+	}
+	sort.Strings(callers)
+	return true, "callers: " + strings.Join(callers, ", ")
 }
 
 // ---------------------------------------------------------------- 1b: every exported operation asserts its operands
